@@ -344,7 +344,35 @@ def check(P: Project, R: Report) -> None:
     ok_tok = len(tok_def) == 1 and "uuid.uuid4()" in ast.unparse(tok_def[0].value)
     R.ob("R5", "progress token is a fresh uuid4 per request", ok_tok, srel, f"definitions {[ast.unparse(s_) for s_ in tok_def]}")
     meta = [s_ for s_ in walk_local(send.node) if isinstance(s_, ast.Assign) and ast.unparse(s_.targets[0]).endswith("['_meta']['progressToken']")]
-    R.ob("R5", "the token sent in params._meta.progressToken is the awaited one", len(meta) == 1 and isinstance(meta[0].value, ast.Name) and same(meta[0].value.id, tok_src), srel, f"{[ast.unparse(s_) for s_ in meta]}")
+    ok_meta = len(meta) == 1 and isinstance(meta[0].value, ast.Name) and same(meta[0].value.id, tok_src)
+    via = ""
+    if not meta:
+        # … or left to the request builder: `create_request(…, progress_token=<the token>)`, whose own store puts its
+        # parameter under params._meta.progressToken
+        for c_ in walk_local(send.node):
+            if isinstance(c_, ast.Call) and call_name(c_).split(".")[-1] == "create_request":
+                kv = kwarg(c_, "progress_token")
+                g_ = P.resolve_call(send, c_)
+                if kv is not None and isinstance(kv, ast.Name) and same(kv.id, tok_src) and g_ is not None and hasattr(g_, "node"):
+                    st_ = [s_ for s_ in walk_local(g_.node) if isinstance(s_, ast.Assign) and ast.unparse(s_.targets[0]).endswith("['_meta']['progressToken']")]
+                    if len(st_) == 1 and ast.unparse(st_[0].value) == "progress_token":
+                        ok_meta = True
+                        via = f" (through {g_.qual})"
+    if not meta and not ok_meta:
+        # … or written as a display: `params = {**…, "_meta": {…, "progressToken": <token>}}`
+        found = []
+        for d_ in walk_local(send.node):
+            if isinstance(d_, ast.Dict):
+                for k_, v_ in zip(d_.keys, d_.values):
+                    if isinstance(k_, ast.Constant) and k_.value == "progressToken":
+                        found.append(v_)
+        if len(found) == 1:
+            ok_meta = isinstance(found[0], ast.Name) and same(found[0].id, tok_src)
+            via = " (dict display)"
+            meta = [found[0]]
+        elif not found:
+            raise AnalysisError(f"{srel}: where the progress token is put into the request is written in a shape this rule cannot read")
+    R.ob("R5", "the token sent in params._meta.progressToken is the awaited one", ok_meta, srel, f"{[ast.unparse(s_) for s_ in meta]}{via}")
 
 
 def _const_text(P: Project, f: FuncInfo, text: str) -> str:
